@@ -201,12 +201,13 @@ func ScaleTwistExtrude3D(sdf SDF2, height, twist float64, scale v2.Vec) SDF3 {
 	s.extrude = ScaleTwistExtrude(height, twist, scale)
 	// work out the bounding box
 	bb := sdf.BoundingBox()
-	bb = bb.Extend(Box2{bb.Min.Mul(scale), bb.Max.Mul(scale)})
-	// the box corner farthest from the axis bounds the twisted profile
+	// The profile is twisted and then scaled along the fixed x/y axes, so bound it by the box
+	// corner farthest from the axis times the largest scale factor reached over the height.
 	l := 0.0
 	for _, v := range bb.Vertices() {
 		l = math.Max(l, v.Length())
 	}
+	l *= math.Max(1, math.Max(math.Abs(scale.X), math.Abs(scale.Y)))
 	s.bb = Box3{v3.Vec{-l, -l, -s.height}, v3.Vec{l, l, s.height}}
 	return &s
 }
